@@ -12,4 +12,21 @@ CollConf == [k \in Keys |-> IF k = 3 THEN 0 ELSE k]
 StrConf == [k \in Keys |-> k + 10]
 
 FullView == vars
+
+(* Coverage goals: corner states the quick tier must always exercise on the real cache.  Each goal is
+   handed to TLC as the invariant ~Goal; the counterexample TLC prints is a behaviour that reaches the
+   corner, and it is replayed like any other lead (checks/cache_family.py, GOALS).                    *)
+G_RejectWithVictims == ~(apc = "new_rej" /\ areg.victims # <<>>)
+G_TwoVictims        == ~(apc = "new_set" /\ Len(areg.victims) >= 2)
+G_DuplicateVictim   == ~(\E i, j \in DOMAIN areg.victims : i # j /\ areg.victims[i] = areg.victims[j])
+G_DroppedUpdate     == ~(\E c \in Clients : pc[c] = "set_send" /\ creg[c].t = "upd" /\ ~Room)
+G_BlockedDel        == ~(\E c \in Clients : pc[c] = "blocked" /\ creg[c].t = "del")
+G_UpdateOfEvicted   == ~(apc = "idle" /\ buf # <<>> /\ Head(buf).t = "upd" /\ pol[Head(buf).h] = NoCost)
+G_SweepWithBuffered == ~(apc = "sweep_check" /\ \E i \in DOMAIN buf : buf[i].t = "new" /\ buf[i].exp # 0)
+G_LateApply         == ~(apc = "new_set" /\ areg.item.exp # 0 /\ areg.item.exp < now)
+G_ClearWithBacklog  == ~(\E c \in Clients : pc[c] = "clr_drain" /\ Len(buf) >= 2 /\ \E d \in Clients : pc[d] = "wait_block")
+G_ClearWhileBusy    == ~(\E c \in Clients : pc[c] = "clr_stop" /\ apc \in {"new_set", "victims", "del_store"})
+G_ExpiredUnswept    == ~(\E h \in Hashes : store[h] # NULL /\ store[h].exp # 0 /\ store[h].exp < now /\
+                          \E c \in Clients : pc[c] \in {"clr_stop", "set_send"})
+G_RaiseCost         == ~(raised /\ used > maxCost)
 =============================================================================
